@@ -63,7 +63,16 @@ def class_clauses(W, H, root, v):
             fs.append(Imp(only(W, H, root, tag), z3.BoolVal(name == cls)))
         else:
             fs.append(Imp(only(W, H, root, tag), ea_recognised(W, H, root, name)))
-    return [('C08.class_is_decided_by_the_message_element_alone', A(*fs)),
+    # with several recognised message elements the class still belongs to one of those present (which one is a fixed priority of the
+    # library, not stated by the property; independence of their document order is the bounded real-code check's business)
+    some = []
+    for tag, cls in TABLE.items():
+        if cls is not None:
+            some.append(A(present(W, H, root, tag), z3.BoolVal(name == cls)))
+        else:
+            some.append(A(present(W, H, root, tag), ea_recognised(W, H, root, name)))
+    return [('C08+C07.class_is_decided_by_the_message_element_alone', A(*fs)),
+            ('C08.class_belongs_to_a_message_element_that_is_present', z3.Or(*some)),
             ('C08+C18.object_wraps_the_parsed_document', z3.BoolVal(isinstance(v, SObj)))]
 
 
@@ -77,7 +86,7 @@ def unknown_clauses(W, H, root, exc):
             fs.append(z3.Not(only(W, H, root, tag)))
         else:
             fs.append(z3.Not(A(only(W, H, root, tag), ea_recognised(W, H, root))))
-    out.append(('C08.rejected_only_without_a_recognised_message_element', A(*fs)))
+    out.append(('C08+C07.rejected_only_without_a_recognised_message_element', A(*fs)))
     return out
 
 
@@ -113,7 +122,7 @@ class MosFileClassify(ClassifyBase):
 
 @contract('mosromgr.mostypes.ElementAction._classify')
 class EAClassify(ClassifyBase):
-    props = ('C08', 'C12')
+    props = ('C08', 'C12', 'C20')
 
     def entry(self, E):
         st = State(L.Heap(0, 0), z3.IntVal(0))
@@ -123,13 +132,13 @@ class EAClassify(ClassifyBase):
         v = ex.value
         W, H, root = cx.W, cx.H, self.root(cx)
         name = v.cls.name if isinstance(v, SObj) else None
-        return [('C08.class_is_decided_by_operation_and_item_ids', ea_recognised(W, H, root, name)),
+        return [('C08+C20.class_is_decided_by_operation_and_item_ids', ea_recognised(W, H, root, name)),
                 ('C08.wraps_the_given_root', ex.st.fields(v)['_xml'].t == root if isinstance(v, SObj) else z3.BoolVal(False))]
 
     def raises(self, cx, ex):
         W, H, root = cx.W, cx.H, self.root(cx)
         return [('C08+C12.only_UnknownMosFileType[%s]' % ex.value.name(), z3.BoolVal(ex.value.name() == 'UnknownMosFileType')),
-                ('C08.rejected_only_when_operation_or_shape_is_not_listed', z3.Not(ea_recognised(W, H, root)))]
+                ('C08+C20.rejected_only_when_operation_or_shape_is_not_listed', z3.Not(ea_recognised(W, H, root)))]
 
 
 class FromBase(Contract):
@@ -204,8 +213,19 @@ class MosFileStr(Contract):
 
     def ensures(self, cx, ex):
         v = ex.value
+        root = cx.objs[cx.a['self'].oid]['_xml'].t
+        escaped = False
+        if isinstance(v, SStr):
+            t = v.t
+            # the ElementTree serialisation of the whole document with EVERY carriage return written as a character reference
+            # (A-ET-RT is stated for exactly this text: a literal U+000D would be read back as a line feed)
+            if z3.is_app(t) and t.decl().name() == 'str_replace' and t.num_args() == 3:
+                x, a, b = t.arg(0), t.arg(1), t.arg(2)
+                escaped = (z3.is_app(x) and x.decl().name().startswith('xml_tostring') and x.num_args() == 1 and z3.eq(x.arg(0), root)
+                           and z3.eq(a, cx.W.lit('\r')) and any(z3.eq(b, cx.W.lit(r)) for r in ('&#13;', '&#xD;', '&#xd;', '&#x0D;')))
         return [('C14.serialisation_is_a_string_computed_from_the_whole_document',
-                 A(z3.BoolVal(isinstance(v, SStr)), v.t != none_s) if isinstance(v, SStr) else z3.BoolVal(False))]
+                 A(z3.BoolVal(isinstance(v, SStr)), v.t != none_s) if isinstance(v, SStr) else z3.BoolVal(False)),
+                ('C14.every_carriage_return_is_written_as_a_character_reference', z3.BoolVal(escaped))]
 
     def raises(self, cx, ex):
         return [('C14+C12.serialising_never_raises[%s]' % ex.value.name(), z3.BoolVal(False))]
